@@ -392,6 +392,89 @@ def accepted_channels(ctx, rng):
                          % (w, chan.in_window_size, chan.in_window_threshold))
 
 
+def unlocked_accounting(ctx, rng):
+    """Two callers inside Channel._check_add_window on one channel (the stdout reader and the stderr reader / the
+    transport thread discarding data), one of them overtaken between its LOAD and its STORE of in_window_sofar.
+    in_window_sofar is made a property of a probe subclass: when the real code loads it while NOT holding the channel
+    lock, the other caller's whole _check_add_window runs right there (a lock holder cannot be overtaken, so under the
+    lock nothing is injected and the other call runs afterwards).  Oracle — conservation on the real object, after
+    every call: Σ acks returned + in_window_sofar = Σ bytes accounted."""
+    import paramiko.channel as chmod
+
+    class T:
+        active = True
+        server_object = None
+
+        def __init__(self):
+            self.adjusts = []
+
+        def _sanitize_packet_size(self, n):
+            return max(n, 4096)
+
+        def _sanitize_window_size(self, n):
+            return max(n, 32768)
+
+        def get_log_channel(self):
+            return "paramiko.verif"
+
+        def _send_user_message(self, m):
+            self.adjusts.append(lib_chan.decode(m))
+
+        _send_message = _send_user_message
+
+        def _unlink_channel(self, chanid):
+            pass
+
+    for window, amounts in ((32768, [(1000, 1200), (500, 900), (3000, 100), (1, 3276), (2000, 2000)]),
+                            (65536, [(6000, 500), (553, 1), (10, 6553), (4000, 4000)]),
+                            (32768, [(rng.choice([1, 700, 3277]), rng.choice([1, 2500])) for _ in range(6)])):
+        state = {"armed": None, "injected": 0, "acks": 0}
+
+        class Probe(chmod.Channel):
+            def _get(self):
+                v = self.__dict__.get("_sofar_value", 0)
+                k = state["armed"]
+                if k is not None and not self.lock.locked():
+                    state["armed"] = None
+                    state["injected"] += 1
+                    state["acks"] += chmod.Channel._check_add_window(self, k)     # the other caller, start to end
+                return v
+
+            def _set(self, v):
+                self.__dict__["_sofar_value"] = v
+
+            in_window_sofar = property(_get, _set)
+
+        chan = Probe(4)
+        chan._set_transport(T())
+        chan._set_window(window, 32768)
+        chan._set_remote_channel(9, window, 32768)
+        total, steps, bad = 0, [], None
+        for n, k in amounts:
+            state["armed"] = k
+            state["acks"] += chan._check_add_window(n)
+            if state["armed"] is not None:          # not overtaken (the load happened under the lock): runs afterwards
+                state["armed"] = None
+                state["acks"] += chan._check_add_window(k)
+            total += n + k
+            sofar = chan.__dict__.get("_sofar_value", 0)
+            steps.append({"reader_bytes": n, "other_caller_bytes": k, "acks_so_far": state["acks"],
+                          "in_window_sofar": sofar, "accounted": total})
+            if state["acks"] + sofar != total and bad is None:
+                bad = (n, k, state["acks"], sofar, total)
+        chan.closed = True
+        case = {"scenario": "second caller of _check_add_window runs between the first one's load and store of "
+                            "in_window_sofar whenever that load is not under Channel.lock",
+                "window": window, "calls": steps, "overtaken_between_load_and_store": state["injected"]}
+        ctx.case(("unlocked-accounting", window, tuple(amounts)), True)
+        ctx.dist("check-add-window-two-caller-scenarios")
+        ctx.dist("loads-of-in_window_sofar-outside-the-lock", state["injected"])
+        if bad:
+            ctx.fail("window-credit-lost:lost-update-of-in_window_sofar", case,
+                     "after accounting %d (reader) and %d (other caller) bytes: acks %d + in_window_sofar %d != %d bytes "
+                     "accounted — one caller's bytes vanished from the count and will never be credited back" % bad)
+
+
 def run(ctx):
     import logging
     logging.getLogger("paramiko").addHandler(logging.NullHandler())
@@ -430,6 +513,7 @@ def run(ctx):
     ctx.build(extra_modules=["PV.Model.ChanDriver"])
     rng = ctx.rng
     accepted_channels(ctx, rng)
+    unlocked_accounting(ctx, rng)
     n = 6000 if ctx.thorough else 1500
     batches = []
     for i in range(n):
@@ -479,6 +563,8 @@ META = {
               "AST of channel.py, is notify_all under the lock), no_lost_wakeup (strict scheduling: an un-notified "
               "sleeper sees a zero window, so with an open window every parked sender is notified), "
               "notified_sleeper_is_enabled, notify_one_strands_second_sender_witness. "
+              "The credit counter is only touched under the lock: sofar_accounting_is_under_the_lock (AST table of every access of "
+              "in_window_sofar), with a two-caller load/store preemption scenario on the real object. "
               "Independent window sizes of the two ends: receive_side_uses_the_advertised_sizes (AST fact: _set_window gets the "
               "expressions that are advertised, acceptor and initiator), threshold_within_the_advertised_window, with "
               "accepted and self-opened channels driven through the real open path at ratios 1:1 .. 1:64. "
